@@ -290,7 +290,7 @@ impl Prop for P {
                 got.join(",")
             };
             let expected = answer(&f);
-            if let Err(e) = crate::wrap::streamed_files_answer(0, &ops, &bytes, &expected, &answer) {
+            if let Err(e) = crate::wrap::alt_builds_answer(0, &ops, &bytes, &expected, &answer) {
                 x = e;
             }
         }
